@@ -62,7 +62,7 @@ def r1(ctx):
     iloops = [n for n in walk_function(it.node) if isinstance(n, ast.For) and "_reader_iter" in u(n.iter)]
     ctx.require(len(iloops) == 1, "_iterrecords does not loop over self._reader_iter")
     il = iloops[0]
-    r2 = u(il.target)
+    r2 = u(il.target.elts[1]) if isinstance(il.iter, ast.Call) and u(il.iter.func) == "enumerate" and isinstance(il.target, ast.Tuple) and len(il.target.elts) == 2 else u(il.target)
     sinks = _stmt_nodes(icfg, lambda a: (isinstance(a, ast.Expr) and isinstance(a.value, ast.Yield) and u(a.value.value) == r2) or (isinstance(a, ast.Assign) and u(a.targets[0]) == "self._unprocessed_record" and u(a.value) == r2))
     ihead = icfg.node_of(il)
     bad = None
@@ -301,8 +301,15 @@ def r4(ctx):
     ctx.require(len(setters) == 1, "self._set_phasing_tags(...) call not found in write")
     sn = cfg.node_containing(setters[0])
     ga = guard_atoms(cfg, sn)
-    for atom, why in ((("pos in components", True), "the position belongs to a component"), (("pos in phases", True), "the solver produced a phase for it"), (("is_het", True), "the call is heterozygous")):
+    # the table the phase is taken from: phases[pos], or a per-position record table T[pos].phase / T[pos][k]
+    pa = setters[0].args[2] if len(setters[0].args) >= 3 else None
+    while isinstance(pa, (ast.Attribute, ast.Subscript)) and not (isinstance(pa, ast.Subscript) and u(pa.slice) == "pos"):
+        pa = pa.value
+    ptab = u(pa.value) if isinstance(pa, ast.Subscript) and u(pa.slice) == "pos" else None
+    for atom, why in ((("pos in components", True), "the position belongs to a component"), (("pos in %s" % (ptab or "phases"), True), "the solver produced a phase for it"), (("is_het", True), "the call is heterozygous")):
         ok = atom in ga
+        if ptab is None and atom[0].startswith("pos in phases") and not ok:
+            ok = None  # the phase argument is not a per-position lookup this rule can read
         ctx.ob(w.qual, "setter-guard:%s" % atom[0], ok, w.loc(setters[0]), "the tag setter runs only if %s" % why if ok else "the tag setter is not dominated by `%s`" % atom[0])
     # every record the generator hands out loses its old phasing first, also the ones skipped below
     rloops = [n for n in walk_function(w.node) if isinstance(n, ast.For) and "self._record_modifier" in u(n.iter)]
